@@ -485,7 +485,7 @@ pub fn run_check<S: Sim>(prop: &str, tier: Tier, seed: u64, workers: usize, limi
     let block = ((total + workers as u64 * 8 - 1) / (workers as u64 * 8)).max(1);
     let next_block = Arc::new(AtomicU64::new(0));
     let mut handles = Vec::new();
-    for wi in 0..workers {
+    for _wi in 0..workers {
         let prop = prop.to_string();
         let deaths = deaths.clone();
         let next_block = next_block.clone();
@@ -498,7 +498,7 @@ pub fn run_check<S: Sim>(prop: &str, tier: Tier, seed: u64, workers: usize, limi
                     break;
                 }
                 let end = (start + block).min(total);
-                let samples = if b < 3 && wi < 3 { 1 } else { 0 };
+                let samples = if b < 3 { 1 } else { 0 };
                 let mut agg = drive_range::<S>(&prop, tier, seed, start, end, samples, &deaths, dump, stride);
                 acc.hashes.append(&mut agg.hashes);
                 acc.dump.append(&mut agg.dump);
